@@ -632,7 +632,7 @@ package bbolt
 //@   ensures [size] err == nil ==> n == tx.meta.pgid * tx.db.pageSize && wbytes == old(wbytes) + n
 //@   ensures [meta0] err == nil ==> (let k := old(wcount) in wpageid[k] == 0 && wflags[k] == common.MetaPageFlag && wlen[k] == tx.db.pageSize && wtxid[k] == tx.meta.txid && wroot[k] == tx.meta.root.root && wfreelist[k] == tx.meta.freelist && wpgid[k] == tx.meta.pgid && wvalid[k])
 //@   ensures [meta1] err == nil ==> (let k := old(wcount) + 1 in wpageid[k] == 1 && wflags[k] == common.MetaPageFlag && wlen[k] == tx.db.pageSize && wtxid[k] == tx.meta.txid - 1 && wroot[k] == tx.meta.root.root && wfreelist[k] == tx.meta.freelist && wpgid[k] == tx.meta.pgid && wvalid[k])
-//@   ensures [data] err == nil ==> sroff == 2 * tx.db.pageSize && srlen == (tx.meta.pgid - 2) * tx.db.pageSize && copyn == srlen
+//@   ensures [data] err == nil ==> sroff == 2 * tx.db.pageSize && srlen == tx.meta.pgid * tx.db.pageSize - 2 * tx.db.pageSize && copyn == srlen
 //@   ensures [source] err == nil && tx.WriteFlag == 0 ==> srfile == tx.db.file
 //@   ensures [unchanged] tx.meta.txid == old(tx.meta.txid) && tx.meta.pgid == old(tx.meta.pgid) && tx.meta.checksum == old(tx.meta.checksum)
 //@   skip tx.go:431 because the buffer was just made with pageSize >= 512 bytes; make() of a symbolic size is not tracked by the slice-length model after the callback havoc
